@@ -7,6 +7,10 @@ fn to_ase(e: std::io::Error) -> AsepriteParseError {
     e.into()
 }
 
+// Upper bound for memory that is reserved up front based on a size that is
+// merely declared in the file. Larger buffers grow as data actually arrives.
+const MAX_PREALLOC: usize = 1 << 20;
+
 pub(crate) struct AseReader<T: Read> {
     input: T,
 }
@@ -64,7 +68,7 @@ where
     }
 
     pub(crate) fn take_bytes(self, limit: usize) -> Result<Vec<u8>> {
-        let mut output = Vec::with_capacity(limit);
+        let mut output = Vec::with_capacity(limit.min(MAX_PREALLOC));
         self.input.take(limit as u64).read_to_end(&mut output)?;
         if output.len() != limit {
             Err(AsepriteParseError::InvalidInput(format!(
@@ -79,7 +83,7 @@ where
 
     pub(crate) fn unzip(self, expected_output_size: usize) -> Result<Vec<u8>> {
         let mut decoder = ZlibDecoder::new(self.input);
-        let mut buffer = Vec::with_capacity(expected_output_size);
+        let mut buffer = Vec::with_capacity(expected_output_size.min(MAX_PREALLOC));
         decoder.read_to_end(&mut buffer)?;
         Ok(buffer)
     }
